@@ -4,13 +4,14 @@ import re
 
 import cmdgen
 import common
+import helpcorr
 import implenv
 import matchgen
 import sessioncheck
 import universe
 
 INFO = {
-    'proof_files': ['Proofs/ColorProofs.v', 'Proofs/ShowProofs.v'] + ['Proofs/SessionColor%s.v' % c for c in 'ABJCDEFGHIKL'] + ['Proofs/PastedCommands.v', 'Proofs/CommandFuel.v'],
+    'proof_files': ['Proofs/ColorProofs.v', 'Proofs/ShowProofs.v'] + ['Proofs/SessionColor%s.v' % c for c in 'ABJCDEFGHIKL'] + ['Proofs/PastedCommands.v', 'Proofs/CommandFuel.v', 'Proofs/HelpProofs.v'],
     'assumptions': [
         'theorems are about WD.Color (color/no_color) and WD.Show (message lines); tied to core/util.py and every __str__/notice by (1) the property\'s own relation checked directly on /repo: each generated session (all argument kinds, labels, destroyed annotations, unresolved objects, passthrough lines, list/filter/breakpoint/matcher/connection/help commands, errors) is run with --color and with --no-color and compared line by line after stripping, (2) the model\'s coloured output compared with /repo\'s, (3) coloured text pasted back as matcher / command',
         'the whole-session statement is proved for the model (C17_session: every event, every command, both modes, no hypothesis; C17_off_no_escape; C17_session_exact over the regenerated shipped protocol data); the model is tied to /repo by the three explorations above',
@@ -80,8 +81,14 @@ def run(res):
     # (3) pasted back
     pasted_back(res, rnd)
     colour_switch(res, rnd)
+    # (4) the help screen: Model/Help.v (which takes the FILE TEXT of matchers.md) against core/matcher.py help_text on the shipped file and
+    # on generated files, evaluated inside the Coq kernel; the colour relation on the implementation alone
+    try:
+        helpcorr.run(res, 150 if res.tier == 'quick' else 3000)
+    except RuntimeError as e:
+        res.disagree('help-screen correspondence could not be evaluated', None, None, str(e)[-800:], sig={'category': 'help-model-build', 'entry': 'help'}, theorem='C17_help_screen')
     res.rule = ('generated sessions with chatter (incl. lines carrying their own escape sequences), all argument kinds, and commands of every kind, each run under --color and --no-color; '
-                'coloured matcher / command text pasted back; non-trivial = session whose stripped coloured output equals its uncoloured output; distinct by input')
+                'coloured matcher / command text pasted back; the help screen of the shipped matchers.md and of generated help files under both settings, model evaluated in the Coq kernel; non-trivial = session whose stripped coloured output equals its uncoloured output; distinct by input')
 
 
 def colour_switch(res, rnd):
